@@ -40,6 +40,16 @@ def cases(tier, seed):
                 step = 4 if N >= 16 else len(ks)
                 for i in range(0, len(ks), step):
                     yield f"C11|enc|N={N},fz={int(fz)},pi={int(pi)},k={ks[i]}..", {"kind": "enc", "N": N, "ks": ks[i:i + step], "fz": fz, "pi": pi, "tier": tier}
+    if q:
+        # every combination of the two encoder flags at the longer lengths as well (three dimensions each): the transform is checked against the
+        # reference and, for SC, the clean round trip
+        for N in (32, 64, 128, 256):
+            for fz in (True, False):
+                for pi in (False, True):
+                    ks3 = [N // 4 + 1, N // 2 + 13, N - 3]
+                    yield f"C11|enc|N={N},fz={int(fz)},pi={int(pi)},k={ks3[0]}..", {"kind": "enc", "N": N, "ks": ks3, "fz": fz, "pi": pi, "tier": tier}
+                    if N <= 128:
+                        yield f"C11|sc|N={N},sum_product,fz={int(fz)},pi={int(pi)},k={ks3[1]}", {"kind": "sc", "N": N, "ks": ks3[1:2], "fz": fz, "pi": pi, "regime": "sum_product", "tier": tier}
     for N in (2, 4, 8):
         for fz in (True, False):
             yield f"C11|mask|N={N},fz={int(fz)}", {"kind": "mask", "N": N, "fz": fz, "tier": tier}
